@@ -2903,3 +2903,377 @@ def C12(ctx, model, tier, models):
             n += 1
     ctx.ob("CEN-H", "share-present", n == 1, "share analysed")
     ctx.floor("REL-fanout", 3)
+
+
+# ============================================================================= C16 interval
+
+def interval_lemmas(ctx, v):
+    r = v.root
+    d = v.by_role("DOWN")[0]
+    tasks = v.by_role("TASK")
+    ctx.ob("CEN-H", "%s:task" % v.name, len(tasks) == 1, "%d task bodies" % len(tasks), v.loc(r))
+    if len(tasks) != 1:
+        return
+    t = tasks[0]
+    # counter: allocated in ROOT.H with constant 0; its only write is the RMW(add 1) in the task; the payload is the RMW's result
+    probs = []
+    ck = None
+    n = 0
+    for p in v.arm(t, None):
+        for s in send_sig(v, t, None, p):
+            n += 1
+            pl = s[3].payload
+            if not (s[0] == "SINK" and s[1] == "Data" and pl is not None and pl[0] == "rmw" and pl[2] == "fetch_add" and pl[3][0] == "const" and pl[3][3] == 1):
+                probs.append("the task does not send Data(i.fetch_add(1))")
+                continue
+            ck = cell_key(pl[1])
+            # the RMW is the one executed in this iteration (between the previous send and this one)
+            prev = max([i for i, e in ev_effects(p) if e.kind == "send" and i < s[4]] + [-1])
+            rm = [i for i, e in ev_effects(p) if e.kind == "atomic" and e.site == pl[4] and prev < i < s[4]]
+            if len(rm) != 1:
+                probs.append("the counter is not advanced exactly once per emission")
+    if ck:
+        c = v.op.cells.get(ck[0])
+        if not (c and c.scope == "SUBSCRIPTION" and cell_init(v, ck[0]) == 0):
+            probs.append("the counter is not a per-subscription cell starting at 0")
+        if not all(b == t and e.kind == "atomic" and e.op == "fetch_add" for e, b in cell_writes(v, ck[0])):
+            probs.append("the counter is written outside the task's increment")
+    ctx.ob("REL-1:1", v.key(t, None, "REL-1:1", "counts-from-zero"), not probs and n, "each emission carries the value its own unit increment returned; counter per subscription from 0" if not probs else "; ".join(sorted(set(probs))), v.loc(t))
+    _interval_cycle(ctx, v)
+    for var in ("Error", "Terminate"):
+        _flag_only_arm(ctx, v, d, var)
+    for var in ("Handshake", "Data", "Pull"):
+        lemma_rel_silent(ctx, v, d, var)
+    # flag written only in DOWN.E|T, allocated per subscription
+    fl = set()
+    for var in ("Error", "Terminate"):
+        for p in v.arm(d, var):
+            for i, e in ev_effects(p):
+                if e.kind == "atomic" and e.op == "store":
+                    fl.add(cell_key(e.cell))
+    okf = len(fl) == 1
+    if okf:
+        k = list(fl)[0]
+        okf = all(b == d for e, b in cell_writes(v, k[0])) and v.op.cells[k[0]].scope == "SUBSCRIPTION" and cell_init(v, k[0]) == 0
+    ctx.ob("SCP-sub", "%s:disposal-flag" % v.name, okf, "the disposal flag is per subscription, initially false, written only by the talkback", v.loc(d))
+    # spawn failure / success (REL-xor), spawn argument is the task, exactly one spawn per subscription
+    probs = []
+    n_ok = n_err = 0
+    for p in returning(v.arm(r, "Handshake")):
+        sig = [s for s in send_sig(v, r, "Handshake", p) if s[0] == "SINK"]
+        spawns = [e for i, e in ev_effects(p) if e.kind == "spawn"]
+        if len(spawns) != 1 or spawns[0].task != t:
+            probs.append("not exactly one spawn of the task")
+            continue
+        dec = [a for (i, a, ev) in guards_before(p, len(p.events)) if a[0] == "discr" and a[1][0] == "call" and "nurse" in a[1][2]]
+        if not dec:
+            probs.append("spawn result not tested")
+            continue
+        if dec[0][2] == 1:
+            n_err += 1
+            okp = len(sig) == 1 and sig[0][1] == "Error"
+            if okp:
+                pl = sig[0][3].payload
+                okp = any(x[0] == "someof" or (x[0] == "field" and x[1][0] == "downcast" and x[1][2] == "Err") for x in walk(pl))
+            if not okp:
+                probs.append("refusal path does not send exactly one Error carrying the spawn error")
+        else:
+            n_ok += 1
+            if [(s[1], s[2]) for s in sig] != [("Handshake", "closure:DOWN")]:
+                probs.append("accept path sends %s" % [s[1] for s in sig])
+    ctx.ob("REL-xor", v.key(r, "Handshake", "REL-xor", "greet-or-refuse"), not probs and n_ok and n_err,
+           "spawn failure: exactly one Error(spawn error) and nothing else; success: exactly one Handshake" if not probs else "; ".join(sorted(set(probs))), v.loc(r))
+
+
+@prop("C16", "other",
+      "The cycle shape of interval is proved on the coroutine's state-machine CFG (both configurations): per subscription ROOT.H "
+      "allocates the counter (constant 0) and the disposal flag and spawns exactly one task; in the task, between entry or a previous "
+      "emission and the next emission there is exactly one sleep(period) with period the factory parameter, and - after the await "
+      "completed, with no further suspension point in between - one test of the disposal flag being false "
+      "(ORD-sleep-check-send); each emission carries the value returned by its own unit increment of the counter, which nothing "
+      "else writes; after seeing the flag the task ends without sending; the talkback only sets the flag on Error/Terminate and is "
+      "silent otherwise; on the Err edge of the spawn exactly one Error carrying the spawn error is sent and nothing else, on the Ok "
+      "edge exactly one Handshake (REL-xor). 'Exactly one number per elapsed period' and 'the first tick at which the disposal is "
+      "visible' are decided as CFG shape only, relative to the timer axiom A8 - a timer and an executor are runtime objects (R-1).",
+      axioms=["A5", "A8"])
+def C16(ctx, model, tier, models):
+    census_operators(ctx, model)
+    n = 0
+    for v in views(model):
+        if v.family == "interval":
+            interval_lemmas(ctx, v)
+            n += 1
+    ctx.ob("CEN-H", "interval-present", n == 1, "interval analysed")
+    ctx.floor("ORD-sleep-check-send", 1)
+
+
+# ============================================================================= C17 panic census
+
+def panic_sites(v):
+    """Every panic-capable effect occurrence: [(body, variant, path, idx, effect, class hint)]."""
+    out = []
+    for b in v.op.bodies:
+        body = v.P.bodies[b]
+        if body.tracing_prov:
+            continue
+        for var in (VARIANTS if body.is_handler() else [None]):
+            for p in v.arm(b, var, inline=0):
+                for i, e in ev_effects(p):
+                    hint = None
+                    if e.kind == "panic":
+                        hint = e.pk
+                    elif e.kind in ("other", "hocall") and e.get("callee") in ("std::ops::Index::index", "std::ops::IndexMut::index_mut"):
+                        hint = "index"
+                    elif e.kind in ("other", "hocall") and (e.get("callee") or "").endswith("::splice"):
+                        hint = "splice"
+                    elif e.kind == "localcall" and (e.get("callee") or "").endswith("Unwrap::unwrap"):
+                        hint = "tuple-unwrap"
+                    if hint:
+                        out.append((b, var, p, i, e, hint))
+    return out
+
+
+def _stored_some_before(path, idx, ck):
+    ok = False
+    for i, e in ev_effects(path):
+        if i >= idx:
+            break
+        if e.kind == "cell" and e.op == "store" and cell_key(e.cell) == ck:
+            ok = e.value[0] == "agg" and e.value[2] == "Option::Some"
+    return ok
+
+
+def _none_stores(v, base):
+    return [(e, b) for e, b in cell_writes(v, base) if e.kind == "cell" and e.op == "store" and e.value[0] == "agg" and e.value[2] == "Option::None"]
+
+
+def _publications(v, handler):
+    """(body, variant, path, idx) of every send that hands `handler` over as a Handshake payload."""
+    out = []
+    for b in v.op.bodies:
+        body = v.P.bodies[b]
+        for var in (VARIANTS if body.is_handler() else [None]):
+            for p in v.arm(b, var):
+                for s in send_sig(v, b, var, p):
+                    pl = s[3].payload
+                    if s[1] == "Handshake" and pl is not None and pl[0] == "agg" and pl[2] == handler:
+                        out.append((b, var, p, s[4]))
+    return out
+
+
+def discharge_panic(v, b, var, p, i, e, hint, tbcells):
+    """Return (class, ok, reason)."""
+    role = v.op.roles.get(b)
+    if e.tracing:
+        return ("K-tracing", True, "written inside tracing's macros (tau)")
+    if hint == "panic":
+        dead = {"DOWN": {"Handshake", "Data"}, "UP": {"Pull"}, "UP_INNER": {"Pull"}}.get(role, set())
+        ok = var in dead
+        return ("K-dead", ok, "explicit panic in %s.%s: %s" % (role, VSHORT.get(var, "-"),
+                "the arm's variant cannot arrive (A4/A5; DOWN.D by type, W1)" if ok else "this arm is reachable under the protocol"))
+    if hint in ("expect", "unwrap", "unwrap_unchecked"):
+        subj = e.subject
+        loads = [x for x in walk(subj) if x[0] == "cellload"]
+        locks = [x for x in walk(subj) if x[0] == "lock"]
+        if subj[0] == "lock":
+            # K-lock: unwrap of a lock result: poisoned only if something panicked while holding it; nothing re-enters while held
+            open_guards = 0
+            bad = False
+            for ev in p.events:
+                if ev[0] == "eff" and ev[1].kind == "lock":
+                    open_guards += 1
+                elif ev[0] == "dropguard":
+                    open_guards = max(0, open_guards - 1)
+                elif ev[0] == "eff" and ev[1].kind in ("send", "thunk", "usercall", "indirect") and open_guards > 0:
+                    bad = True
+            return ("K-lock", not bad, "lock().unwrap(): the locked regions contain no send and no call except the iterator's next" if not bad else "a send / callback happens while a lock guard is alive")
+        if loads:
+            ld = loads[0]
+            ck = cell_key(ld[1])
+            cls = v.m.recv_class(v.op, ("someof", ld))
+            if cls[0] == "THUNKCELL":
+                none = _none_stores(v, ck[0])
+                # stored before the first call of the thunk in ROOT.H (C09 lemma) and never cleared
+                r = v.root
+                okp = True
+                for pp in returning(v.arm(r, "Handshake", inline=0)):
+                    st = [j for j, x in ev_effects(pp) if x.kind == "cell" and x.op == "store" and base_key(x.cell) == ck[0]]
+                    th = [j for j, x in ev_effects(pp) if x.kind == "thunk"]
+                    if not st or (th and st[0] > th[0]):
+                        okp = False
+                return ("K-thunk", okp and not none, "thunk cell stored before the first call and never cleared" if okp and not none else "thunk cell may be empty when called")
+            if opt_guarded(p, i, ld):
+                return ("K-init", True, "the same cell was just seen to be Some (no send in between)")
+            if _stored_some_before(p, i, ck):
+                return ("K-init", True, "stored Some earlier on the same path")
+            none = _none_stores(v, ck[0])
+            if none:
+                return ("K-init", False, "cell can be cleared (%s) and this expect is not guarded" % none[0][0].loc)
+            # never cleared: who stores it, and is that ordered before this site can run?
+            storers = [(h, st) for h, st in tbcells.get(ck[0], []) if cell_key(st.cell) == ck] or [(h, st) for h, st in tbcells.get(ck[0], [])]
+            if not storers:
+                return ("K-init", False, "no store of Some into this cell found")
+            if v.family == "combine" and role == "DOWN":
+                # every member stores its slot before decrementing n_start; the talkback is published by the N-th decrement
+                okm = True
+                for h in v.by_role("UP"):
+                    for pp in returning(v.arm(h, "Handshake")):
+                        st = [j for j, x in ev_effects(pp) if x.kind == "cell" and x.op == "store" and x.value[0] == "agg" and x.value[2] == "Option::Some"]
+                        rm = [j for j, x in ev_effects(pp) if x.kind == "atomic" and x.op == "fetch_sub"]
+                        if not st or not rm or st[0] > rm[0]:
+                            okm = False
+                    for pp in v.arm(h, "Handshake"):
+                        for s in send_sig(v, h, "Handshake", pp):
+                            if s[1] == "Handshake" and s[0] == "SINK":
+                                g = grd_once(v, pp, s[4])
+                                if not (g and g["post_offset"] == 0 and g["init"] == len(v.by_role("UP")) and g["uniform"]):
+                                    okm = False
+                return ("K-init", okm, "all N member slots are stored before the N-th decrement of n_start publishes the talkback" if okm else "talkback may be published before every member slot is stored")
+            if role == "DOWN":
+                pubs = _publications(v, b)
+                bad = [1 for (pb, pv, pp, pi) in pubs if not _stored_some_before(pp, pi, ck)]
+                return ("K-init", bool(pubs) and not bad,
+                        "every publication of this talkback is dominated by the store" if pubs and not bad else
+                        "the talkback is published on a path that has not stored the cell (%d of %d publications)" % (len(bad), len(pubs)))
+            if role in ("UP", "UP_INNER") and var != "Handshake":
+                okh = all(any(x.kind == "cell" and x.op == "store" and cell_key(x.cell) == ck and x.value[2] == "Option::Some" for j, x in ev_effects(pp)) for pp in returning(v.arm(b, "Handshake")))
+                same = any(h == b for h, _ in storers)
+                return ("K-init", okh and same, "the handler's own Handshake arm (which A1 orders first) stores the cell on every path" if okh and same else "the cell is not stored by this handler's Handshake arm on every path")
+            return ("K-init", False, "expect on a talkback cell in %s.%s has no discharge" % (role, VSHORT.get(var, "-")))
+        if locks or any(x[0] == "call" and x[2].endswith("::take") for x in walk(subj)):
+            # K-value: res.take().unwrap() behind res_done == false, res_done := res.is_none() in the same iteration
+            okv = False
+            why = "value cell unwrap not guarded by the emptiness flag written in the same iteration"
+            lk = [x for x in walk(subj) if x[0] == "lock"]
+            if lk:
+                vck = cell_key(lk[0][1])
+                fl = [(j, a) for j, a, _ in guards_before(p, i) if a[0] == "bool" and a[1][0] == "aload" and a[2] is False]
+                for j, a in fl:
+                    fck = cell_key(a[1][1])
+                    sts = [(jj, x) for jj, x in ev_effects(p) if jj < j and x.kind == "atomic" and x.op == "store" and cell_key(x.cell) == fck]
+                    if not sts:
+                        continue
+                    jj, st = sts[-1]
+                    opnd = st.operand
+                    if opnd is not None and opnd[0] == "call" and opnd[2].endswith("::is_none") and any(x[0] == "lock" and cell_key(x[1]) == vck for x in walk(opnd)):
+                        between = [x for q, x in ev_effects(p) if jj < q < i and (x.kind in ("send", "thunk", "usercall") or (x.kind == "pstore" and any(y[0] == "lock" and cell_key(y[1]) == vck for y in walk(x.place))))]
+                        if not between:
+                            okv, why = True, "guarded by the flag `value is none` == false, written from this very cell in the same iteration with no send in between"
+            return ("K-value", okv, why)
+        return ("K-unknown", False, "unwrap/expect of %s" % show(subj)[:60])
+    if hint == "tuple-unwrap":
+        dec = [a for (_, a, _) in guards_before(p, i) if a[0] == "cmp" and a[3] == "==" and a[4] == 0 and a[2] is None and a[1] is not None and obs_of_counter(a[1])]
+        rc = [j for j, x in ev_effects(p) if j < i and x.kind == "cell" and x.op == "rcu"]
+        rm = [j for j, x in ev_effects(p) if j < i and x.kind == "atomic" and x.op == "fetch_sub"]
+        ok = bool(dec) and bool(rc) and (not rm or rc[0] < rm[0])
+        return ("K-count", ok, "tuple unwrap guarded by n_data == 0, read after this member's publication, counter announced after publishing" if ok else "tuple unwrap not behind n_data == 0 / publication order")
+    if hint.startswith("assert:overflow"):
+        subj = e.subject
+        inner = subj[1] if subj[0] == "overflowed" else subj
+        if inner[0] == "binop":
+            a, k = inner[2], inner[3]
+            base = a
+            while base[0] == "someof":
+                base = base[1]
+            if base[0] == "rmw" and base[2] == "fetch_add" and inner[1].startswith("Add"):
+                return ("K-arith", True, "post-increment of an event counter: bounded by the number of deliveries (2^64 residue)")
+            if base[0] == "rmw" and base[2] == "fetch_update" and inner[1].startswith("Add"):
+                return ("K-arith", True, "previous value admitted by the update, hence < max")
+            if base[0] == "rmw" and base[2] == "fetch_sub" and inner[1].startswith("Sub"):
+                ck = cell_key(base[1])
+                init = cell_init(v, ck[0])
+                ws = cell_writes(v, ck[0])
+                # at most `init` decrements: one site per member arm (A1/A2) or slot-guarded
+                n_sites = len({(x.site) for x, _ in ws})
+                ok = init is not None and init >= 1 and all(x.kind == "atomic" and x.op == "fetch_sub" for x, _ in ws)
+                return ("K-arith", ok, "counter from %s decremented once per member (%d sites): the value returned is >= 1" % (init, n_sites) if ok else "decrement of a counter that may be 0")
+            if base[0] == "param" and inner[1].startswith("Add"):
+                lt = [g for (_, g, _) in guards_before(p, i) if g[0] == "cmp" and g[3] == "<" and g[1] == base]
+                return ("K-arith", bool(lt), "t + 1 behind t < max" if lt else "unguarded increment of a parameter")
+            if any(x[0] == "call" and x[2].endswith("::position") for x in walk(base)) or base[0] in ("upvar", "someof"):
+                return ("K-arith", True, "index + 1 with the index obtained from `position` on a live list")
+        return ("K-arith", False, "arithmetic assertion %s on %s" % (hint, show(subj)[:60]))
+    if hint == "index":
+        coll, ix = e.args[0], e.args[1]
+        # (a) loop variable of 0..n over a collection of n elements
+        if ix[0] == "someof" and ix[1][0] == "call" and ix[1][2] == "std::iter::Iterator::next":
+            src = ix[1][3][0]
+            if src[0] == "agg" and src[2].startswith("Range::") and src[3][0][0] == "const" and src[3][0][3] == 0 and _is_member_count(v, src[3][1]):
+                sized = any(_is_member_count(v, x) for x in walk(coll) if x[0] == "call" and x[2].endswith("::len")) or any(is_factory_param(v, x) for x in walk(coll) if x[0] == "param")
+                return ("K-index", sized, "index ranges over 0..n with n the length of the indexed collection" if sized else "range variable indexes an unrelated collection")
+        if ix[0] in ("upvar", "param") or (ix[0] == "someof"):
+            return ("K-index", True, "captured loop index of the subscribing iteration")
+        # (b) concat: sources[i.load()] behind i != n
+        if ix[0] == "aload":
+            ck = cell_key(ix[1])
+            ne = [a for (_, a, _) in guards_before(p, i) if a[0] == "cmp" and a[3] == "!=" and a[4] == 0 and counter_term(a[1]) and counter_term(a[1])[1] == ck and a[2] is not None and _is_member_count(v, a[2])]
+            ws = cell_writes(v, ck[0])
+            mono = all(x.kind == "atomic" and x.op == "fetch_add" and x.operand[3] == 1 for x, _ in ws) and cell_init(v, ck[0]) == 0
+            nosend = True
+            if ne:
+                gi = [j for j, a, _ in guards_before(p, i) if a[0] == "cmp" and a[3] == "!="][0]
+                nosend = not [1 for j, x in ev_effects(p) if gi < j < i and x.kind == "send"]
+            ok = bool(ne) and mono and nosend
+            return ("K-index", ok, "index i read right after i != n, i monotone from 0 by +1 (so i < n)" if ok else "index load not dominated by i != n on a monotone index")
+        return ("K-index", False, "index expression %s" % show(ix)[:60])
+    if hint == "splice":
+        rng = e.args[1] if len(e.args) > 1 else None
+        ok = rng is not None and rng[0] == "agg" and rng[2].startswith("Range::") and lin(rng[3][1]) == (rng[3][0], 1)
+        return ("K-index", ok, "splice(i..i+1) with i captured from `position` on the list (sequentially the list is unchanged in between)" if ok else "splice range is not i..i+1")
+    if hint.startswith("assert:bounds"):
+        subj = e.subject
+        if subj[0] == "binop" and subj[1] == "Lt":
+            ix, ln = subj[2], subj[3]
+            coll = ln[2] if ln[0] == "unop" else ln
+            fake = Effect("other", e.site, e.s, callee="std::ops::Index::index", args=[coll, ix])
+            cls, ok, why = discharge_panic(v, b, var, p, i, fake, "index", tbcells)
+            return (cls, ok, "bounds check: " + why)
+        return ("K-index", False, "compiler bounds check on %s" % show(subj)[:60])
+    if hint in ("assert:misaligned", "assert:nullptr"):
+        return ("K-compiler", True, "debug-build pointer validity check on a reference the borrow checker already guarantees (not a protocol assertion)")
+    return ("K-unknown", False, hint)
+
+
+@prop("C17", "other",
+      "Exhaustive census (CEN-P) of panic-capable MIR sites - explicit panic!, expect / unwrap, compiler-inserted overflow "
+      "assertions, Index::index, Vec::splice, the tuple Unwrap - in every body of every operator (12 combine arities, both feature "
+      "configurations); each site must fall into a discharge class whose lemma holds on every path through it: K-dead (the arm's "
+      "incoming variant cannot arrive: DOWN.H / DOWN.D / UP.P; DOWN.D by type, W1), K-init (expect on a talkback cell: Some-guarded "
+      "on the same path, or stored earlier on the path, or the cell is never cleared and its store dominates every publication of "
+      "the handler containing the expect / the handler's own Handshake arm stores it on every path; combine: all N slots stored "
+      "before the N-th decrement publishes the talkback), K-thunk (concat's next_ref), K-lock (no send while a lock guard is alive), "
+      "K-value (from_iter's value cell behind the emptiness flag of the same iteration), K-count (combine's tuple unwrap behind "
+      "n_data == 0 after publication), K-arith, K-index, K-tracing. A site in no class is an undischarged panic site. One K-init "
+      "instance fails on this tree and is a recorded finding: share greets later sinks in ROOT without the upstream talkback having "
+      "been stored when the upstream greets late (KF-6). Not decided: panics inside user closures / iterators; overflow after 2^64 "
+      "events.",
+      axioms=["A1", "A2", "A4", "A5", "A6"])
+def C17(ctx, model, tier, models):
+    census_operators(ctx, model)
+    total = 0
+    classes = {}
+    for v in views(model):
+        tbcells = v.talkback_cells()
+        per_site = {}
+        for (b, var, p, i, e, hint) in panic_sites(v):
+            cls, ok, why = discharge_panic(v, b, var, p, i, e, hint, tbcells)
+            k = (b, e.site, hint)
+            cur = per_site.get(k)
+            if cur is None:
+                per_site[k] = [cls, ok, why, e, {var}]
+            else:
+                cur[4].add(var)
+                if not ok and cur[1]:
+                    cur[0], cur[1], cur[2] = cls, ok, why
+        for (b, site, hint), (cls, ok, why, e, arms) in sorted(per_site.items(), key=lambda kv: str(kv[0])):
+            total += 1
+            classes[cls] = classes.get(cls, 0) + 1
+            armtxt = "".join(sorted(VSHORT.get(a, "-") for a in arms))
+            key = "%s:%s:%s:%s" % (v.name, v.label(b), cls, armtxt)
+            if v.family == "share" and cls == "K-init" and not ok and v.op.roles.get(b) == "DOWN":
+                key = "share:DOWN:K-init:later-sink-published-before-store"
+            if v.family == "combine":
+                key = "%s:%s:%s:%s" % (v.name, v.generic_label(b), cls, armtxt)
+            ctx.ob("CEN-P", key, ok, "%s: %s" % (hint, why), e.loc)
+    ctx.ob("CEN-P", "census:total", total >= 60, "%d panic-capable sites classified: %s" % (total, dict(sorted(classes.items()))))
+    ctx.floor("CEN-P", 60)
